@@ -10,9 +10,9 @@ pub fn check(tier: Tier) -> Check {
     let mut parts = vec![];
     for k in 0..=2u32 {
         let d = match (tier, k) {
-            (Tier::Quick, 0) => 5,
+            (Tier::Quick, 0) => 6,
             (Tier::Quick, 1) => 4,
-            (Tier::Quick, _) => 3,
+            (Tier::Quick, _) => 4,
             (Tier::Thorough, 0) => 7,
             (Tier::Thorough, 1) => 6,
             (Tier::Thorough, _) => 5,
@@ -21,9 +21,9 @@ pub fn check(tier: Tier) -> Check {
             parts.push(Part::new("C15/cancel", json!({"depth": d, "r": r}), k, tier.pick(30, 500)));
         }
     }
-    parts.push(Part::new("C15/cancel", json!({"depth": tier.pick(4, 6), "r": 1, "flavour": 1}), 0, tier.pick(30, 500)));
+    parts.push(Part::new("C15/cancel", json!({"depth": tier.pick(5, 6), "r": 1, "flavour": 1}), 0, tier.pick(30, 500)));
     // three established subscriptions: dropping a stream / a response must not disturb the others
-    parts.push(Part::new("C15/streams", json!({"depth": tier.pick(4, 6)}), tier.pick(0, 1), tier.pick(30, 400)));
+    parts.push(Part::new("C15/streams", json!({"depth": tier.pick(5, 6)}), tier.pick(0, 1), tier.pick(30, 400)));
     Check {
         also_rel: false,
         property: "C15",
